@@ -199,6 +199,21 @@ def check_history(case):
                 raise Violation("after verifying an envelope, the same signatures on a changed payload: %s" % bad,
                                 bucket="outcome depends on earlier calls")
             related_done = True
+            # OpenPGP mode: same key, same signature bytes, same payload, other hashed-header bytes
+            if e["gpg"]:
+                e3 = copy.deepcopy(e["env"])
+                changed = False
+                for k, v in e3["signatures"].items():
+                    if isinstance(v, dict) and isinstance(v.get("other_headers"), str) and v["other_headers"]:
+                        v["other_headers"] = v["other_headers"] + "00"
+                        changed = True
+                if changed:
+                    exp = RV.signable(e3, e["authorized"], e["threshold"], True)
+                    o = RV.outcome(A.verify_signable, e3, e["authorized"], e["threshold"], gpg=True)[0]
+                    bad = RV.mismatch(exp, o)
+                    if bad:
+                        raise Violation("after verifying an OpenPGP-mode envelope, the same signature values with altered hashed headers: %s"
+                                        % bad, bucket="outcome depends on earlier calls")
         elif name == "related_eq":
             r = related.eq_retype(e["env"]["signed"])
             if r is not None:
